@@ -23,6 +23,7 @@ var (
 	flagVerbose   = flag.Bool("v", false, "verbose")
 	flagSolver    = flag.String("solver", "", "override solver back end")
 	flagOut       = flag.String("evidence", "/verif/evidence", "evidence directory")
+	flagMaxPaths  = flag.Int("maxpaths", 3000, "debug: path cap for -sym")
 	flagProfile   = flag.String("cpuprofile", "", "debug: write CPU profile")
 	flagConform   = flag.Bool("conform", false, "run the encoder conformance corpus only")
 	flagSolverLog = flag.String("solverlog", "", "debug: write solver transcript of worker 0 to this file")
@@ -130,7 +131,7 @@ func debugRun(spec string, symbolic bool) int {
 	queue := [][]int32{nil}
 	paths := 0
 	t0 := time.Now()
-	for len(queue) > 0 {
+	for len(queue) > 0 && paths < *flagMaxPaths {
 		prefix := queue[len(queue)-1]
 		queue = queue[:len(queue)-1]
 		res := m.RunPath(entry, args, prefix, 50_000_000)
